@@ -52,8 +52,10 @@ def _alarm(signum, frame):
 
 
 def run(coro_fn, max_iterations=2_000_000, patch_monotonic=True,
-        wall_limit=60):
-    """run coro_fn(loop) to completion on a fresh virtual loop"""
+        wall_limit=60, stop_if=None):
+    """run coro_fn(loop) to completion on a fresh virtual loop; stop_if() is
+    asked at every loop iteration and ends the run with Idle(its message):
+    a bound in logical terms the caller knows (e.g. accesses issued)"""
     import signal
     import threading
     use_alarm = threading.current_thread() is threading.main_thread()
@@ -61,14 +63,14 @@ def run(coro_fn, max_iterations=2_000_000, patch_monotonic=True,
         old_handler = signal.signal(signal.SIGALRM, _alarm)
         signal.setitimer(signal.ITIMER_REAL, wall_limit)
     try:
-        return _run(coro_fn, max_iterations, patch_monotonic)
+        return _run(coro_fn, max_iterations, patch_monotonic, stop_if)
     finally:
         if use_alarm:
             signal.setitimer(signal.ITIMER_REAL, 0)
             signal.signal(signal.SIGALRM, old_handler)
 
 
-def _run(coro_fn, max_iterations, patch_monotonic):
+def _run(coro_fn, max_iterations, patch_monotonic, stop_if=None):
     loop = VLoop()
     asyncio.set_event_loop(loop)
     olds = []
@@ -86,6 +88,10 @@ def _run(coro_fn, max_iterations, patch_monotonic):
     def guard():
         if loop.iterations > max_iterations:
             raise Idle(f"more than {max_iterations} loop iterations")
+        if stop_if is not None:
+            why = stop_if()
+            if why:
+                raise Idle(why)
     loop.on_iteration = guard
     try:
         return loop.run_until_complete(coro_fn(loop))
